@@ -19,7 +19,7 @@ for pid in sorted(props.PROPS):
         thorough_cmd='./check %s --tier thorough' % pid,
         evidence_file='/verif/evidence/%s.json' % pid,
         replay_cmd_template='cat {path}',
-        engine='verus+kani' if P.get('parts') else 'verus',
+        engine='verus+kani' if any(x['name'].startswith('kani') for x in P.get('parts', [])) else 'verus',
         level_claimed=dict(category=P['level'], text=P['level_text'], design_ref=P.get('design_ref', 'DESIGN.md §4')),
         level_note=P['level_note'],
         technique=P['technique'],
@@ -36,7 +36,7 @@ m = dict(
     engines=[
         dict(name='verus', path='/usr/local/bin/verus', serves_properties=sorted(props.PROPS),
              kind_free_text='deductive verifier (contracts on mechanically extracted real functions), Z3 back end'),
-        dict(name='kani', path='cargo kani', serves_properties=[p for p in sorted(props.PROPS) if props.PROPS[p].get('parts')],
+        dict(name='kani', path='cargo kani', serves_properties=[p for p in sorted(props.PROPS) if any(x['name'].startswith('kani') for x in props.PROPS[p].get('parts', []))],
              kind_free_text='CBMC-based model checker; loop-free full-domain harnesses on the real src/hex.rs (complete), '
                             'bounded harnesses labelled as such, concrete playback for replay'),
     ],
